@@ -1,38 +1,38 @@
 //! C10b: the variable layout of the encoders for a symbolic number of arguments (pure arithmetic, default BMC).
+use crate::nd;
+use crate::require;
 use crate::statics::{encoder, Enc};
 use crustabri::verif_hooks as hooks;
 
 fn layout(e: Enc, with_range: bool) {
-    let n: usize = kani::any();
-    kani::assume(n >= 1 && n < (1 << 20));
-    let i: usize = kani::any();
-    let j: usize = kani::any();
-    let k: usize = kani::any();
-    kani::assume(i < n && j < n && k < n);
+    let n = 1 + nd::below_capped((1 << 20) - 1, 12) as usize;
+    let i = nd::below_capped(n as u32, 12) as usize;
+    let j = nd::below_capped(n as u32, 12) as usize;
+    let k = nd::below_capped(n as u32, 12) as usize;
     let enc = encoder(e);
     let a = hooks::new_argument(i, 0usize);
     let b = hooks::new_argument(j, 0usize);
     let li = isize::from(enc.arg_to_lit(&a));
     let lj = isize::from(enc.arg_to_lit(&b));
-    assert!(li > 0 && lj > 0, "C10: arguments are mapped to positive literals");
-    assert!((i == j) == (li == lj), "C10: distinct arguments are mapped to distinct literals");
+    require!(li > 0 && lj > 0, "C10: arguments are mapped to positive literals");
+    require!((i == j) == (li == lj), "C10: distinct arguments are mapped to distinct literals");
     if with_range {
         let f = enc.first_range_var(n);
-        assert!(f >= 1, "C10: range variables are valid variables");
+        require!(f >= 1, "C10: range variables are valid variables");
         let rk = (f + k) as isize;
-        assert!(rk != li, "C10: range variables never collide with argument variables");
+        require!(rk != li, "C10: range variables never collide with argument variables");
         // the auxiliary (disjunction) variables of the aux_var family are the odd variables below 2n; range variables lie above
-        assert!(rk as usize > n, "C10: range variables lie above the argument block");
+        require!(rk as usize > n, "C10: range variables lie above the argument block");
     }
     std::mem::forget(enc);
 }
 
 macro_rules! layout_harness {
     ($name:ident, $enc:expr, $range:expr) => {
-        #[kani::proof]
-        #[kani::stub(alloc::fmt::format, crate::util::fmt_stub)]
-        #[kani::unwind(2)]
-        fn $name() {
+        #[cfg_attr(kani, kani::proof)]
+        #[cfg_attr(kani, kani::stub(alloc::fmt::format, crate::util::fmt_stub))]
+        #[cfg_attr(kani, kani::unwind(2))]
+        pub fn $name() {
             layout($enc, $range);
         }
     };
@@ -45,17 +45,16 @@ layout_harness!(layout_q_exp_cf, Enc::ExpCf, true);
 layout_harness!(layout_q_exp_co, Enc::ExpCo, true);
 layout_harness!(layout_q_hybrid, Enc::Hybrid, true);
 
-#[kani::proof]
-#[kani::stub(alloc::fmt::format, crate::util::fmt_stub)]
-#[kani::unwind(2)]
-fn layout_q_stable() {
+#[cfg_attr(kani, kani::proof)]
+#[cfg_attr(kani, kani::stub(alloc::fmt::format, crate::util::fmt_stub))]
+#[cfg_attr(kani, kani::unwind(2))]
+pub fn layout_q_stable() {
     use crustabri::encodings::{ConstraintsEncoder, DefaultStableConstraintsEncoder};
-    let i: usize = kani::any();
-    let j: usize = kani::any();
-    kani::assume(i < (1 << 20) && j < (1 << 20));
+    let i = nd::below_capped(1 << 20, 12) as usize;
+    let j = nd::below_capped(1 << 20, 12) as usize;
     let enc = DefaultStableConstraintsEncoder::default();
     let li = isize::from(ConstraintsEncoder::<usize>::arg_to_lit(&enc, &hooks::new_argument(i, 0usize)));
     let lj = isize::from(ConstraintsEncoder::<usize>::arg_to_lit(&enc, &hooks::new_argument(j, 0usize)));
-    assert!(li > 0 && lj > 0, "C10: arguments are mapped to positive literals");
-    assert!((i == j) == (li == lj), "C10: distinct arguments are mapped to distinct literals");
+    require!(li > 0 && lj > 0, "C10: arguments are mapped to positive literals");
+    require!((i == j) == (li == lj), "C10: distinct arguments are mapped to distinct literals");
 }
